@@ -296,9 +296,12 @@ def listing_declared(d):
     order in which module contents are merged does not matter"""
     t = exp_tree(d)
     return {
-        "structs": sorted([s["name"], [[f["name"], f["field_id"]] for f in s["fields"]]] for s in t["structs"]),
+        "structs": sorted([s["name"], [[f["name"], f["field_id"], f.get("unit")] for f in s["fields"]]] for s in t["structs"]),
         "enums": sorted([e["name"], [[x["name"], x["value"]] for x in e["enumeration"]]] for e in t["enums"]),
-        "impls": sorted([i["name"], i["protocol"], i["type"], [k for k, _ in i["fields"]], [sb["name"] for sb in i["signals"]]]
+        # ... with the texts declared in the source (units, string values of bindings and signal blocks): "with the values
+        # declared in the source" is checked against what the generator wrote, not against what the parser made of it
+        "impls": sorted([i["name"], i["protocol"], i["type"], [[k, v] if isinstance(v, str) else [k] for k, v in i["fields"]],
+                         [[sb["name"], [[k, v] if isinstance(v, str) else [k] for k, v in sb["fields"]]] for sb in i["signals"]]]
                         for i in t["impls"]),
         "services": sorted([sv["name"], sv["id"], [[m["name"], m["id"], m["input"], m["output"]] for m in sv["methods"]]]
                            for sv in t["services"]),
@@ -307,11 +310,16 @@ def listing_declared(d):
 
 def listing_record(rs):
     def n(c):
-        return "".join(chr(x) for x in c)
+        return bytes(c).decode("utf-8")
+
+    def kv(k, v):
+        return [n(k), n(v["s"])] if isinstance(v, dict) and "s" in v else [n(k)]
     return {
-        "structs": sorted([n(s["name"]), [[n(f["name"]), f["id"]] for f in s["fields"]]] for s in rs["structs"]),
+        "structs": sorted([n(s["name"]), [[n(f["name"]), f["id"], None if f["unit"] is None else n(f["unit"])] for f in s["fields"]]]
+                          for s in rs["structs"]),
         "enums": sorted([n(e["name"]), [[n(x["name"]), x["value"]] for x in e["items"]]] for e in rs["enums"]),
-        "impls": sorted([n(i["name"]), n(i["protocol"]), n(i["type"]), [n(k) for k, _ in i["fields"]], [n(sb["name"]) for sb in i["signals"]]]
+        "impls": sorted([n(i["name"]), n(i["protocol"]), n(i["type"]), [kv(k, v) for k, v in i["fields"]],
+                         [[n(sb["name"]), [kv(k, v) for k, v in sb["fields"]]] for sb in i["signals"]]]
                         for i in rs["impls"]),
         "services": sorted([n(sv["name"]), sv["id"], [[n(m["name"]), m["id"], n(m["input"]), n(m["output"])] for m in sv["methods"]]]
                            for sv in rs["services"]),
